@@ -4,6 +4,7 @@ package aliyun
 
 import (
 	"context"
+	"k8s.io/apimachinery/pkg/util/wait"
 	"net/netip"
 
 	"github.com/aliyun/alibaba-cloud-sdk-go/services/eflo"
@@ -60,4 +61,64 @@ func ZZ_C07_eflo_unassign_batch() {
 		}
 		zz.Reach("eflo-unassign-ok")
 	}
+}
+
+// C07, EFLO factory, assign: the address the cloud assigned is either
+// reported to the pool or handed back.  AssignLeniPrivateIPAddress returns
+// the name of the new address; its value is read back by listing that name.
+// Fault at any call: the assign fails -> nothing happened, nothing reported;
+// the read-back keeps failing -> the address is unassigned again (by its
+// name, on this interface) and the error is reported; the read-back works ->
+// exactly that address is reported, without an error.
+// Assumed of the cloud (not derivable offline): a successful read-back of a
+// just assigned name lists its entry.
+// zz:noreplay the OpenAPI client and the retry helper are replaced through engine-side overrides
+func ZZ_C07_eflo_assign_reported_or_rolled_back() {
+	assignFails := zz.Bool("assign.fails")
+	listOKAt := zz.Fork("readback.succeeds.at.attempt", 4) // 3: never
+	assigned, unassigned := false, false
+	lists := 0
+	zz.Override("(*github.com/AliyunContainerService/terway/pkg/aliyun/client.OpenAPI).AssignLeniPrivateIPAddress", func(a *client.OpenAPI, ctx context.Context, eniID, prefer string) (string, error) {
+		if assignFails {
+			return "", errZZAPI
+		}
+		assigned = true
+		return "ip-new", nil
+	})
+	zz.Override("(*github.com/AliyunContainerService/terway/pkg/aliyun/client.OpenAPI).ListLeniPrivateIPAddresses", func(a *client.OpenAPI, ctx context.Context, eniID, ipName, ipAddress string) (*eflo.Content, error) {
+		lists++
+		if lists-1 != listOKAt {
+			return nil, errZZAPI
+		}
+		zz.Assert(ipName == "ip-new", "the read-back asks for the name the cloud returned")
+		return &eflo.Content{Data: []eflo.DataItem{{IpName: "ip-new", PrivateIpAddress: "10.0.0.42", ElasticNetworkInterfaceId: "leni-1"}}}, nil
+	})
+	zz.Override("(*github.com/AliyunContainerService/terway/pkg/aliyun/client.OpenAPI).UnassignLeniPrivateIPAddress", func(a *client.OpenAPI, ctx context.Context, eniID, ipName string) error {
+		zz.Assert(eniID == "leni-1" && ipName == "ip-new", "the roll-back names the new address on this interface")
+		unassigned = true
+		return nil
+	})
+	zz.Override("k8s.io/client-go/util/retry.OnError", func(b wait.Backoff, retriable func(error) bool, fn func() error) error {
+		var last error
+		for i := 0; i < b.Steps; i++ {
+			last = fn()
+			if last == nil || !retriable(last) {
+				return last
+			}
+		}
+		return last
+	})
+	p := &Eflo{ctx: context.Background(), api: &client.OpenAPI{}, enableIPv4: true}
+	got, err := p.AssignNIPv4("leni-1", 1, "00:00:00:00:00:01")
+	if assignFails {
+		zz.Assert(err != nil && len(got) == 0 && !unassigned && lists == 0, "a refused assign reports an error and nothing else happens")
+		return
+	}
+	if err == nil {
+		zz.Assert(len(got) == 1 && got[0] == netip.MustParseAddr("10.0.0.42") && !unassigned, "success reports exactly the address the cloud assigned, and keeps it")
+	} else {
+		zz.Assert(listOKAt == 3, "an error is reported only when the read-back failed at every attempt")
+		zz.Assert(assigned && unassigned, "an address whose value could not be read back is handed back to the cloud")
+	}
+	zz.Assert(zz.Implies(listOKAt < 3, err == nil), "a read-back that succeeds within the retries makes the call succeed")
 }
